@@ -786,6 +786,27 @@ def run_case(case: dict, seed: int) -> dict:
         except Exception as e:  # noqa
             viol.append(("C04.parse-raises", f"{kind[:3]}:{type(e).__name__}@{_site(e)}", f"{type(e).__name__}: {e}"[:300]))
             got = None
+        if got is not None and kind == "v21" and (case.get("po") or case.get("hist") is not None or not case.get("h")):
+            # the documented `offset` parameter: the same file embedded behind a prefix must parse to the same content
+            from spsdk.sbfile.sb2.images import BootImageV21
+
+            for off in (16, 0x400, len(data) + 16):
+                count["parse_with_offset"] = count.get("parse_with_offset", 0) + 1
+                pre = core.seeded_bytes(seed, f"prefix{off}", off)
+                try:
+                    got_o = parsed_content(BootImageV21.parse(pre + data, offset=off, kek=given["kek"]))
+                except SPSDKError as e:
+                    viol.append(("C04.parse-offset", "raises-SPSDKError", f"offset {off:#x}: {e}"[:300]))
+                    continue
+                except (core.Watchdog, core.HarnessError):
+                    raise
+                except Exception as e:  # noqa
+                    viol.append(("C04.parse-offset", f"raises-{type(e).__name__}", f"offset {off:#x}: {type(e).__name__}: {e}"[:300]))
+                    continue
+                if core.jdump(got_o) != core.jdump(got):
+                    ns, no = len(got["sections"]), len(got_o["sections"])
+                    viol.append(("C04.parse-offset", "sections-count" if ns != no else "content",
+                                 f"parse(prefix + file, offset={off:#x}) differs from parse(file): {no} vs {ns} sections"))
         if got is not None:
             compare_content("parse", kind, exp, got, False, viol, ref=romc)
             if romc is not None:
